@@ -31,7 +31,9 @@ def load(path: str | os.PathLike, format: str | None = None) -> _core.Model:
     # by doing memory mapping directly.
     proto = onnx.load(path, format=format, load_external_data=False)
     model = serde.deserialize_model(proto)
-    base_dir = os.path.dirname(path)
+    # A bare file name has an empty dirname; an empty base_dir would disable the
+    # path containment checks of ExternalTensor, so use the current directory instead
+    base_dir = os.path.dirname(path) or os.curdir
     # Set the base directory for external data to the directory of the ONNX file
     # so that relative paths are resolved correctly.
     _external_data.set_base_dir(model.graph, base_dir)
